@@ -53,6 +53,9 @@ impl<D: TextDecorator> TextRenderer<D> {
     /// Add link to global link collection
     pub fn start_link(&mut self, target: &str) -> Result<()> {
         self.links.push(target.to_string());
+        verif_hook!(emit(crate::verif_hooks::Event::LinkStart {
+            n: self.links.len()
+        }));
         self.subrender.last_mut().unwrap().start_link(target)?;
         Ok(())
     }
@@ -62,6 +65,7 @@ impl<D: TextDecorator> TextRenderer<D> {
 
         if self.options.include_link_footnotes {
             let footnote_num = self.links.len();
+            verif_hook!(emit(crate::verif_hooks::Event::LinkRef { n: footnote_num }));
             self.add_inline_text(&format!("[{}]", footnote_num))?;
         }
         Ok(())
@@ -69,12 +73,18 @@ impl<D: TextDecorator> TextRenderer<D> {
 
     /// Push a new builder onto the stack
     pub fn push(&mut self, builder: SubRenderer<D>) {
+        verif_hook!(emit(crate::verif_hooks::Event::SubPush {
+            ann_depth: builder.ann_stack.len()
+        }));
         self.subrender.push(builder);
     }
 
     /// Pop off the top builder and return it.
     /// Panics if empty
     pub fn pop(&mut self) -> SubRenderer<D> {
+        verif_hook!(emit(crate::verif_hooks::Event::SubPop {
+            ann_depth: self.subrender.last().map(|s| s.ann_stack.len()).unwrap_or(0)
+        }));
         self.subrender
             .pop()
             .expect("Attempt to pop a subrender from empty stack")
@@ -419,10 +429,12 @@ impl<T: Clone + Eq + Debug + Default> WrappedBlock<T> {
 
                 if ws_mode == WhiteSpace::Pre {
                     self.pre_wrapped = true;
+                    verif_hook!(emit(crate::verif_hooks::Event::PreWrap));
                 }
 
                 // Write any remaining whitespace
                 while self.wslen > 0 {
+                    verif_hook!(tick("flush_word_ws"));
                     let to_copy = self.wslen.min(self.width);
                     self.line.push_ws(to_copy, self.spacetag.as_ref().unwrap());
                     if to_copy == self.width {
@@ -457,6 +469,8 @@ impl<T: Clone + Eq + Debug + Default> WrappedBlock<T> {
                 let mut bpos = 0; // Byte position of already-copied pieces
                                   //
                 while w - wpos > lineleft {
+                    verif_hook!(tick("hard_wrap"));
+                    verif_hook!(emit(crate::verif_hooks::Event::HardWrap));
                     let mut split_idx = 0;
                     for (idx, c) in piece.s[bpos..].char_indices() {
                         let c_w = UnicodeWidthChar::width(c).unwrap();
@@ -512,6 +526,10 @@ impl<T: Clone + Eq + Debug + Default> WrappedBlock<T> {
     fn force_flush_line(&mut self) {
         let mut tmp_line = TaggedLine::new();
         mem::swap(&mut tmp_line, &mut self.line);
+        verif_hook!(emit(crate::verif_hooks::Event::LineFlushed {
+            limit: self.width,
+            width: tmp_line.len
+        }));
         if self.pad_blocks {
             let tmp_tag;
             let tag = if let Some(st) = self.spacetag.as_ref() {
@@ -613,6 +631,7 @@ impl<T: Clone + Eq + Debug + Default> WrappedBlock<T> {
                             let mut pos = self.line.len + self.wslen;
                             let mut at_least_one_space = false;
                             while pos % tab_stop != 0 || !at_least_one_space {
+                                verif_hook!(tick("tab_stop"));
                                 if pos >= self.width {
                                     self.flush_line();
                                     pos = 0;
@@ -1234,6 +1253,7 @@ impl<D: TextDecorator> SubRenderer<D> {
                     let mut buf = String::new();
                     for c in s.chars() {
                         let c_width = UnicodeWidthChar::width(c).unwrap_or(0);
+                        verif_hook!(tick("fmt_links"));
                         if pos + c_width > self.width {
                             if !buf.is_empty() {
                                 wrapped_line.push_str(TaggedString {
@@ -1277,6 +1297,17 @@ impl<D: TextDecorator> SubRenderer<D> {
 
     pub fn width_minus(&self, prefix_len: usize, min_width: usize) -> Result<usize> {
         let new_width = self.width.saturating_sub(prefix_len);
+        verif_hook!(emit(crate::verif_hooks::Event::WidthMinus {
+            avail: self.width,
+            prefix: prefix_len,
+            min: min_width,
+            result: if new_width < min_width && !self.options.allow_width_overflow {
+                None
+            } else {
+                Some(new_width.max(min_width))
+            },
+            overflowed: new_width < min_width && self.options.allow_width_overflow,
+        }));
         if new_width < min_width && !self.options.allow_width_overflow {
             return Err(TooNarrow);
         }
